@@ -547,11 +547,12 @@ func valueNonNilAt(v ssa.Value, at *ssa.BasicBlock, depth int) bool {
 }
 
 func checkC06(c *Ctx, r *Report) {
-	r.Rules = []string{"E1 no dropped error", "E1' no swallowed error", "E2 checked close of closers over a fallible sink", "D9 invalid settings end in an error", "E3 CLI failure edge removes the target and exits non-zero", "E2m closers over in-memory sinks completed before use", "E5 file references reach their reader as configured", "E1-dep dependency container writers (thorough)", "D9 required architecture (deb, rpm, apk) evaluated with literal tables modelled", "E1'-cell an error kept in a memory cell is not overwritten by a later call's result on a path the failure takes", "E6-changelog-stat the changelog file is checked with os.Stat before the lenient parser reads it"}
+	r.Rules = []string{"E1 no dropped error", "E1' no swallowed error", "E2 checked close of closers over a fallible sink", "D9 invalid settings end in an error", "E3 CLI failure edge removes the target and exits non-zero", "E2m closers over in-memory sinks completed before use", "E5 file references reach their reader as configured", "E1-dep dependency container writers (thorough)", "D9 required architecture (deb, rpm, apk) evaluated with literal tables modelled", "E1'-cell an error kept in a memory cell is not overwritten by a later call's result on a path the failure takes", "E6-changelog-stat the changelog file is checked with os.Stat before the lenient parser reads it", "E7-short-write direct writes to the external destination use the byte count", "valid-F13-width / valid-F14-name-fixpoint invalid settings are rejected, not reinterpreted (imported from C14, C15)"}
 	r.Explanation = "Error-discipline analysis over go/ssa on the packaging call graph of all five packagers, the CLI, the signing helpers and the parser: (E1) every call whose callee returns an error has that result used, unless it falls under an enumerated idiom (reader-side Close, write into an in-memory buffer or hash decided by an interprocedural sink-root analysis, diagnostics, deferred cleanup Close discharged by E2, a named exception); (E1') from the failure edge of an `err != nil` test no path reaches a return with a nil error; (E2) every closer created over a fallible (caller-supplied) sink is closed/flushed, non-deferred and with its error used, before every return that may report success — or by a deferred closure that stores the Close error into the named result; (D9) the invalid cell of every finite setting evaluates to an error-only return set; (E3) the CLI's packaging-failure edge passes through os.Remove(target) and returns the error, and the root command exits with a non-zero constant. All paths and call sites of the code are covered, which is what 'every write index k' quantifies over; no fault is injected or executed."
 	r.Explanation += " (E2m) closers layered over an in-memory buffer are completed (non-deferred Close/Flush, also as the exit of a loop over a literal list of closers, also when the closer comes from a module factory) before every success-capable return and every read of the buffer. E1' also covers the error parameter of a tree-walk callback. (E5) a configuration field that names a file the packagers read may be assigned by the parser's environment expansion only if it is documented as expandable."
 	r.Explanation += " (D9-arch) nfpm.PrepareForPackager is evaluated for deb, rpm and apk with neither the general nor the format's own architecture set and every other setting unknown: every live return carries an error (lookups in map literals built in the function are modelled)."
 	r.Explanation += " (E1'-cell) for every store of a call's error into a named-result or captured variable that is then nil-tested, no other fresh-error store to that cell is reachable from both the failing and the succeeding edge. (E6-changelog-stat) every call of the changelog parser is dominated by os.Stat of the same path."
+	r.Explanation += " (E7-short-write) every invoke of Write on an io.Writer whose sink root is external has its count result used."
 	r.Assumptions = []string{
 		"third-party writers (archive/tar, compress/gzip, pgzip, zstd, xz, rpmpack, blakesmith/ar in quick tier) surface sink errors through the Write/Close error they return",
 		"writes into bytes.Buffer, strings.Builder and hash.Hash never fail",
@@ -815,6 +816,12 @@ func checkC06(c *Ctx, r *Report) {
 	checkD9(c, r)
 	checkErrorCellOverwrite(c, r, scope)
 	checkChangelogExists(c, r)
+	checkShortWrites(c, r, scope, sa)
+	// an invalid setting that is silently reinterpreted instead of rejected:
+	// an epoch beyond the width it is stored in (rule of C14), a package name
+	// the file name's sanitiser would change (rule of C15)
+	r.Floor("valid-F13-width", importRules(c, r, checkC14, "valid-", []string{"F13-width"}, nil), 1)
+	r.Floor("valid-F14-name-fixpoint", importRules(c, r, checkC15, "valid-", []string{"F14-name-fixpoint"}, nil), 1)
 	checkReferenceRewrite(c, r)
 	checkE3(c, r)
 	if c.Tier == "thorough" {
@@ -2642,4 +2649,46 @@ func checkChangelogExists(c *Ctx, r *Report) {
 		})
 	}
 	r.Floor("E6-changelog-stat", n, 1)
+}
+
+// checkShortWrites (E7-short-write): "for every write index k ... error and
+// short-write variants". A direct Write on the caller's destination - an
+// io.Writer whose root is external - hands back the number of bytes taken; a
+// call that discards that number reports success for an output the
+// destination has only partly accepted. (io.Copy and the archive writers check
+// the count themselves.)
+func checkShortWrites(c *Ctx, r *Report, scope map[*ssa.Function]bool, sa *sinkAnalysis) {
+	n := 0
+	for _, fn := range sortedFuncs(c, scope) {
+		k := 0
+		forEachInstr(fn, func(in ssa.Instruction) {
+			call, ok := in.(*ssa.Call)
+			if !ok || !call.Call.IsInvoke() || call.Call.Method.Name() != "Write" {
+				return
+			}
+			if call.Call.Value.Type().String() != "io.Writer" && call.Call.Value.Type().String() != "io.WriteCloser" {
+				return
+			}
+			if sa.root(call.Call.Value) == sinkInfallible {
+				return
+			}
+			n++
+			k++
+			used := false
+			if call.Referrers() != nil {
+				for _, ref := range *call.Referrers() {
+					if ex, isEx := ref.(*ssa.Extract); isEx && ex.Index == 0 && ex.Referrers() != nil {
+						for _, r2 := range *ex.Referrers() {
+							if _, isDbg := r2.(*ssa.DebugRef); !isDbg {
+								used = true
+							}
+						}
+					}
+				}
+			}
+			r.Check(used, "E7-short-write", fmt.Sprintf("%s: direct write#%d to an external writer uses the byte count", c.funcKey(fn), k), c.instrPos(call),
+				"the number of bytes the destination accepted is discarded: a short write (n < len, no error) leaves a truncated package while the call reports success")
+		})
+	}
+	r.Count("direct_writes_to_external_writers", n)
 }
